@@ -477,6 +477,7 @@ def run_gen(harness, seed, nseq, nops, profile, workdir, tag):
     stats = os.path.join(workdir, "stats-%s.json" % tag)
     env = dict(os.environ)
     env.setdefault("GOMEMLIMIT", "4GiB")
+    env["GOTRACEBACK"] = "none"
     rc, out, err = sh([harness, "-mode", "gen", "-ops", ops, "-trace", trace, "-seed", str(seed),
                        "-nseq", str(nseq), "-nops", str(nops), "-profile", profile, "-stats", stats],
                       env=env, timeout=1800)
@@ -492,7 +493,8 @@ def run_driver(driver, ops_path, out_path):
 def run_replay(harness, ops_lines, timeout=60):
     data = ("\n".join(ops_lines) + "\n").encode()
     try:
-        p = subprocess.run([harness, "-mode", "replay"], input=data, capture_output=True, timeout=timeout)
+        p = subprocess.run([harness, "-mode", "replay"], input=data, capture_output=True, timeout=timeout,
+                           env=dict(os.environ, GOTRACEBACK="none"))
         return p.returncode, p.stdout.decode(errors="replace"), p.stderr.decode(errors="replace")
     except subprocess.TimeoutExpired:
         return 124, "", "timeout"
@@ -665,6 +667,10 @@ def write_replay(v):
 def replay(pid, path):
     v = json.load(open(path))
     cfg = propcfg.PROPS[pid]
+    if v.get("no_ops_replay"):
+        print("replay %s: %s" % (path, v.get("what")))
+        print("re-run: " + " ".join(v.get("ops", [])))
+        return 1
     if not v.get("ops"):
         print("replay %s names a broken obligation, no operation sequence: %s" % (path, v.get("what")))
         return 1
@@ -825,6 +831,7 @@ def write_evidence(pid, tier, seed, cfg, proof_info, regen_info, corr, extra_inf
         "op_kinds": merge_hist(corr.gen_stats, "op_kinds"),
         "panic_classes": merge_hist(corr.gen_stats, "panic_classes"),
         "relation_target_kinds": merge_hist(corr.gen_stats, "relation_target_kinds"),
+        "typed_wide_arity": merge_hist(corr.gen_stats, "typed_wide_arity"),
         "max_alive": max([s.get("max_alive", 0) for s in corr.gen_stats] or [0]),
         "max_archetypes": max([s.get("max_archetypes", 0) for s in corr.gen_stats] or [0]),
         "benign_raw_divergences": corr.benign,
